@@ -35,23 +35,24 @@ ASSUMPTIONS = [
     "threads are switched at PY_START / CALL (non-inlined) / backward JUMP inside library code, and at every executed source line of library functions that store to attributes, items or globals (shared state)",
     "every thread has its own copy of the harness bookkeeping (the method-entry log is per thread)",
 ]
-REPORT_COUNTERS = ["cases", "controlled_schedules", "sweep_schedules", "double_preemption_schedules", "random_schedules",
+REPORT_COUNTERS = ["cases", "controlled_schedules", "sweep_schedules", "double_preemption_schedules", "same_function_window_schedules", "random_schedules",
                    "raw_races", "scheduling_points", "switches_forced", "lock_handoffs", "thread_outcomes_compared",
                    "post_run_probe_vectors", "scn_first_call", "scn_miss_same", "scn_miss_diff", "scn_next_chain",
-                   "scn_dependent", "scn_kwonly", "scn_after_failed_build", "scn_callable_arg", "calls_with_keywords", "programs_with_optional_positional", "line_preempted_functions", "three_thread_schedules", "timeouts"]
+                   "scn_dependent", "scn_kwonly", "scn_after_failed_build", "scn_callable_arg", "scn_hit_same", "calls_with_keywords", "programs_with_optional_positional", "programs_with_class_predicate_in_dependent_combination", "programs_racing_calls_made_before", "line_preempted_functions", "three_thread_schedules", "timeouts"]
 
-SCENARIOS = ["first_call", "miss_same", "miss_diff", "next_chain", "dependent", "kwonly", "after_failed_build", "callable_arg"]
+SCENARIOS = ["first_call", "miss_same", "miss_diff", "next_chain", "dependent", "kwonly", "after_failed_build", "callable_arg",
+             "hit_same"]
 STRATEGIES = ["sweep", "sweep", "double", "random", "raw"]
 
 
 def plan(tier):
-    n = 80 if tier == "quick" else 1600
+    n = 90 if tier == "quick" else 1800
     return {"cases": n, "params": {"sweep_stride": 6 if tier == "quick" else 1, "random": 20 if tier == "quick" else 120,
                                   "raw": 60 if tier == "quick" else 600},
             "timeout_s": 1800 if tier == "quick" else 14000,
             "min": {"controlled_schedules": 2_000, "sweep_schedules": 1_000, "random_schedules": 200, "raw_races": 500,
                     "switches_forced": 1_500, "scn_first_call": 5, "scn_miss_same": 5, "scn_miss_diff": 5,
-                    "scn_next_chain": 5, "scn_dependent": 5, "scn_kwonly": 5, "scn_after_failed_build": 5, "scn_callable_arg": 5, "calls_with_keywords": 4}}
+                    "scn_next_chain": 5, "scn_dependent": 5, "scn_kwonly": 5, "scn_after_failed_build": 5, "scn_callable_arg": 5, "scn_hit_same": 5, "calls_with_keywords": 4, "same_function_window_schedules": 200}}
 
 
 class TVF(PVF):
@@ -104,7 +105,7 @@ def gen_case(rng, params, idx):
     if scn == "after_failed_build" and strat == "raw":
         strat = "sweep"     # a thread left waiting for ever is decided logically by the scheduler-aware lock only
     hier = gen.gen_hierarchy(rng, rng.randint(2, 4), attrs=False)
-    dep = 0.45 if scn == "dependent" else 0.1
+    dep = 0.45 if scn in ("dependent", "hit_same") else 0.1
     kinds = ("leaf", "next", "next", "nextalt") if scn == "next_chain" else ("leaf", "leaf", "next", "rec")
     # kwonly: methods with (optional) keyword-only parameters; the threads pass different sets of keywords
     pk = 0.8 if scn == "kwonly" else 0
@@ -114,6 +115,14 @@ def gen_case(rng, params, idx):
         for m in spec["methods"]:
             for k in m.get("kw", []):
                 k["req"] = False
+    if scn == "hit_same" or (scn == "dependent" and rng.random() < 0.5):
+        # user class predicates inside value-dependent combinations: the generated check asks them per argument class
+        spec["methods"][0]["pos"][0]["t"] = rng.choice([
+            ["I", ["CC", "isk"], ["D", "object", "truthy"]], ["U", ["CC", "nobase"], ["D", "int", "even"]],
+            ["U", ["L", 1, 2], ["CC", "hasfly"]], ["I", ["CC", "evenname"], ["D", "object", "truthy"]]])
+        spec["class_predicate_in_dependent"] = True
+        if strat == "sweep":
+            strat = "double"
     if rng.random() < 0.4:
         # optional trailing positional parameters: the entry point then needs its defaults
         for m in spec["methods"]:
@@ -137,7 +146,15 @@ def gen_case(rng, params, idx):
         spec["npos"] = 1
         c0 = c1 = c2 = {"pos": [["v", 0]], "kw": {}, "fn": True}
         cg = gen.CallGen(spec, vals)
-    spec.update(scenario=scn, strategy=strat, calls=[c0, c1, c2], warm=cg.call(rng, p_kw=pk),
+    warm = cg.call(rng, p_kw=pk)
+    if scn == "hit_same":
+        # racing *hits*: the very call both threads make (on an instance of a class of the hierarchy, which the class
+        # predicates are about) was made before, by the thread that set the function up
+        c0 = dict(c0, pos=[["i", rng.choice(hier)["name"]]] + list(c0["pos"][1:]))
+        c1 = dict(c0)
+        warm = dict(c0)
+        spec["racing_hits"] = True
+    spec.update(scenario=scn, strategy=strat, calls=[c0, c1, c2], warm=warm,
                 probes=[cg.call(rng, p_kw=pk) for _ in range(6)], seed=rng.randrange(1 << 30),
                 sweep_stride=params["sweep_stride"], nrandom=params["random"], nraw=params["raw"])
     return spec
@@ -177,7 +194,7 @@ def _mk(spec, env):
         return prog
     if spec["scenario"] != "first_call":
         prog.ov.compile()
-        if spec["scenario"] in ("miss_same", "miss_diff", "next_chain", "dependent", "kwonly"):
+        if spec["scenario"] in ("miss_same", "miss_diff", "next_chain", "dependent", "kwonly", "hit_same"):
             prog.vf.reset(())
             a = prog.args(spec["warm"])
             try:
@@ -263,6 +280,10 @@ def check_case(spec, res):
     res.count("calls_with_keywords", sum(1 for c in calls if c.get("kw")))
     if spec.get("has_optional"):
         res.count("programs_with_optional_positional")
+    if spec.get("class_predicate_in_dependent"):
+        res.count("programs_with_class_predicate_in_dependent_combination")
+    if spec.get("racing_hits"):
+        res.count("programs_racing_calls_made_before")
 
     def judge(results, prog, label, detail, s=None):
         got = [_norm_result(r) for r in results]
@@ -354,6 +375,19 @@ def check_case(spec, res):
                         k, k2 = rng.randint(1, max(1, N)), rng.randint(1, max(1, M))
                         res.count("double_preemption_schedules")
                         ok, _ = controlled(sched.Sweep(k, first, k2), "double", {"policy": "double", "k": k, "k2": k2, "first": first}, first)
+                        if not ok:
+                            return
+                    # windows: both threads stopped between two lines of the *same* state-writing function (one has
+                    # tested, the other has half-written) - every such pair of points, up to a cap
+                    la, lb = s0.locs[first], s0.locs[1 - first]
+                    pairs = [(i + 1, j + 1) for i, a in enumerate(la) if a[1] == "line"
+                             for j, b in enumerate(lb) if b[1] == "line" and b[0] == a[0]]
+                    if len(pairs) > spec.get("window_cap", 60):
+                        pairs = rng.sample(pairs, spec.get("window_cap", 60))
+                    for k, k2 in pairs:
+                        res.count("same_function_window_schedules")
+                        ok, _ = controlled(sched.Sweep(k, first, k2), "window", {"policy": "double", "k": k, "k2": k2, "first": first,
+                                                                                  "function": la[k - 1][0]}, first)
                         if not ok:
                             return
         else:
